@@ -68,6 +68,17 @@ def tasks(tier):
             else:
                 out.append({"family": "permit", "cfg": cfg, "entry": e, "bound": bound,
                             "weight": M})
+    # another user of the shared budget takes a token while the library is inside a callback
+    for M, bud, e in itertools.product([2, 3], [{"max": 1, "window": 8}, {"max": 2, "window": 8}],
+                                       Q4):
+        cfg = dict(M=M, budget=bud, alphabet=["ok", "x:T", "r:T"], intrude=["strategy", "classifier"],
+                   max_unknown=None)
+        out.append({"family": "permit-shared-budget", "cfg": cfg, "entry": e, "bound": 2})
+    # zero delay: the sleep handler must still be asked
+    for M, e in itertools.product([2, 3], Q4):
+        cfg = dict(M=M, alphabet=["ok", "x:T", "r:T"], handler="call", handler_free=True,
+                   strat_menu=[0, "nan", -1, 1], strat_free=True, max_unknown=None)
+        out.append({"family": "permit-zero-delay", "cfg": cfg, "entry": e, "bound": 0})
     # no handler, no abort predicate: the plain path (default sleeper through patched sleep)
     for M, bud, dl in itertools.product([1, 2, 3], buds, [None, 3]):
         cfg = dict(M=M, budget=bud, deadline=dl, alphabet=ALPHA, durs=[0, 2], overshoot=[0, 2],
@@ -119,6 +130,11 @@ def monitor(w, cfg):
                 grants.append("sleep")
             if not a.last:
                 grants.append("next invocation")
+            if cfg["budget"] is not None and (a.retries or a.sleeps or not a.last) \
+                    and not any(c[1] for c in a.consumes) and not a.must:
+                v.append(("c03.retry-without-token",
+                          f"attempt {a.i}: a retry was granted ({grants}) although the shared "
+                          f"budget did not grant a token (consume calls: {a.consumes})"))
             if a.must and grants:
                 key = F1_KEY if a.must == {"MAX_ATTEMPTS_GLOBAL"} else GRANT_KEY
                 v.append((key, f"attempt {a.i} ({op.label}, elapsed {a.elapsed}) must not be "
